@@ -81,6 +81,17 @@ def main(tier, replay=None):
             with open(os.path.join(d, name + ".bitproto"), "w") as f:
                 f.write(text)
             schemas[name] = (d, name + ".bitproto", True, ["Top"])
+        # one file with four direct imports (the order of anything derived from the imports must be the source's)
+        d = os.path.join(root, "h5")
+        os.makedirs(d)
+        for nm in ("alpha", "bravo", "charlie", "delta"):
+            with open(os.path.join(d, nm + ".bitproto"), "w") as f:
+                f.write("proto %s\n\nmessage %s {\n    uint%d v = 1\n}\n" % (nm, nm.capitalize(), 3 + len(nm)))
+        with open(os.path.join(d, "h5.bitproto"), "w") as f:
+            f.write("proto h5\n\nimport \"charlie.bitproto\"\nimport \"alpha.bitproto\"\nimport \"delta.bitproto\"\n"
+                    "import \"bravo.bitproto\"\n\nmessage Top {\n    alpha.Alpha a = 1\n    bravo.Bravo b = 2\n"
+                    "    charlie.Charlie c = 3\n    delta.Delta d = 4\n}\n")
+        schemas["h5"] = (d, "h5.bitproto", True, ["Top"])
         for k in range(nrand):
             pr, _ = gen.rand_case(seed, 190000 + k, max_bits=300, p_ext=0.0 if k % 2 == 0 else 0.3)
             d = os.path.join(root, "r%d" % k)
